@@ -72,8 +72,9 @@ class _TabulationCutoff(object):
       cutoff = (nr-1)*dr      
     elif cutoff and dr:
       # Set nr
-      nr = (cutoff/dr) + 1
-      nr = int(nr)
+      # The quotient is rounded before truncation so that a cutoff that is a whole
+      # multiple of dr (e.g. 0.3/0.1 = 2.9999999999999996) gives the expected row count.
+      nr = int(round(cutoff/dr, 8)) + 1
     elif not dr is None:
       raise ConfigParserException("'{dr}' cannot be specified without either '{nr}' or '{cutoff}' in [Tabulation] section of potential definition.".format(**self._template_dict))
 
